@@ -17,6 +17,8 @@ RULE = ('amounts n (smallest units): every integer of [0, 10^6] and [21e14-10^6,
         'a*10^k; each rendered exactly as a decimal string in every denominator symbol (20) x currency code (9) with '
         '0..8 decimals (minimal / padded / zero-extended renderings), plus sub-unit strings with up to 14 decimals; '
         'directions: parse (value_to_satoshi / Value(str), with and without network argument), from_satoshi(n[, den]), '
+        'format with DEFAULT decimals (denominator named by symbol / number / the Value\'s own denominator, amounts with all digits '
+        'non-zero; exact format->parse demanded wherever one unit needs <= 8 decimals), '
         'format (str(den, decimals) judged numerically), format->parse round trip, numeric constructor Value(k, den) '
         'and float literals, Output/Input/add_output value forms and transaction totals; unit-carrying strings x every '
         '`denominator=` display argument (symbol and numeric form, incl. sat / 1e-8 / 1 / m / µ) judged on value_sat and all integer '
@@ -308,21 +310,25 @@ def chk_format(case, col, tally=None):
     n, den, dec, net = int(case['n']), case.get('den'), case.get('decimals'), case.get('network', 'bitcoin')
     code = NETCODES[net]
     cls = 'format/%s/%s' % (den if den in ('auto', None) else (den or 'unit'), 'explicit-decimals' if dec is not None else 'default-decimals')
-    ident = ('format', mag_class(n), den, dec is None, net, case.get('build'))
+    ident = ('format', mag_class(n), den, dec is None, net, case.get('build'), case.get('den_form', 'sym'))
     if tally is not None:
         tally.add(cls, ident, case)
     else:
         col.case(cls, nontrivial=ident, sample=case)
     col.probe('format')
     try:
-        if case.get('build') == 'den' and den not in (None, 'auto'):
+        dform = case.get('den_form', 'sym')     # how the denominator is named: symbol, number, or the Value's own denominator
+        if (case.get('build') == 'den' or dform == 'own') and den not in (None, 'auto'):
             v = Value.from_satoshi(n, den, net)
         elif case.get('build') == 'str':
             v = Value('%s %s' % (render(n, 0), code))
         else:
             v = Value.from_satoshi(n, network=net)
-        if den is None:
+        if den is None or (dform == 'own' and den != 'auto'):
             text = v.str() if dec is None else v.str(decimals=dec)
+        elif dform == 'num' and den != 'auto':
+            e_ = DEN_EXP[den]
+            text = v.str(10 ** e_ if e_ >= 0 else float('1e%d' % e_), dec)
         elif den == '':
             text = v.str(1, dec) if dec is not None else v.str_unit()
         elif den == 'auto':
@@ -380,8 +386,14 @@ def chk_format(case, col, tally=None):
                 pass
         col.violation(key, 'formatting %d smallest units gives %r (= %s units)' % (n, text, float(amount)), case, text, render(n, e))
         return
-    # --- round trip (only meaningful when the printed digits can express one unit)
-    if not can_express_unit:
+    # --- round trip. Meaningful when the printed digits can express one unit. With DEFAULT decimals that is demanded wherever
+    # the denominator can express one smallest unit in 8 or fewer decimals (sub-unit denominators, sat ... whole coin): there the
+    # default text has to carry the amount to the unit, so format -> parse must return n. (Larger prefixes are capped at 8
+    # decimals by design and 'auto' chooses denominator and digits for readability: both stay judged numerically only.)
+    default_must_roundtrip = dec is None and den != 'auto' and max(0, e - UNIT_EXP) <= 8
+    if default_must_roundtrip:
+        col.probe('default_decimals_roundtrip')
+    if not can_express_unit and not default_must_roundtrip:
         return
     col.probe('roundtrip')
     try:
@@ -398,6 +410,8 @@ def chk_format(case, col, tally=None):
     k = None
     if sym == 'T' and ('T' + code).upper() in [c.upper() for c in CODES] and bnet in [nn for nn, c in NETCODES.items() if c.upper() == ('T' + code).upper()]:
         k = K_TERA
+    elif not can_express_unit:
+        k = None       # too few default decimals: not one of the float mechanisms (those have all digits of the unit printed)
     elif sym not in ('', 'sat') and is_intlike(back) and abs(back - n) == 1 and n >= 2 ** 50 and bnet in networks_for(code):
         try:
             if case.get('build') == 'den' and value_to_satoshi(Value.from_satoshi(n, network=net).str(den, dec)) == n:
@@ -414,7 +428,9 @@ def chk_format(case, col, tally=None):
                 k = K_RT_SUBUNIT
         except Exception:
             pass
-    col.violation(k, 'format -> parse: %d -> %r -> %r on %s' % (n, text, back, bnet), case, {'value': back, 'network': bnet}, n)
+    col.violation(k, 'format -> parse: %d -> %r -> %r on %s%s' % (
+        n, text, back, bnet, '' if can_express_unit else ' (default decimals: %d printed, %d needed for one smallest unit)' % (printed, e - UNIT_EXP)),
+        case, {'value': back, 'network': bnet}, n)
 
 
 def chk_numeric(case, col, tally=None):
@@ -883,6 +899,27 @@ def gen_subunit(rnd):
     return {'kind': 'parse', 'num': num, 'sym': sym, 'code': rnd.choice(CODES), 'network': None, 'style': 'subunit'}
 
 
+def gen_nonzero(rnd):
+    """An amount whose decimal digits are all non-zero (every printed position matters), up to the supply."""
+    while True:
+        L = rnd.randrange(1, 17)
+        n = int(''.join(rnd.choice('123456789') for _ in range(L)))
+        if n <= TOP:
+            return n
+
+
+def gen_format_default(rnd, n=None, sym=None, dform=None):
+    """formatting WITHOUT a decimals argument, denominator named by symbol / number / the Value's own denominator"""
+    n = gen_nonzero(rnd) if n is None else n
+    sym = rnd.choice(SYMS) if sym is None else sym
+    dform = rnd.choice(['sym', 'num', 'own']) if dform is None else dform
+    net = rnd.choice(list(NETCODES))
+    build = 'den' if dform == 'own' else rnd.choice(['default', 'default', 'str'])
+    if build == 'str':
+        net = networks_for(NETCODES[net])[0]
+    return {'kind': 'format', 'n': n, 'den': sym, 'decimals': None, 'network': net, 'build': build, 'den_form': dform}
+
+
 def gen_from_sat(rnd, n=None):
     n = gen_amount(rnd) if n is None else n
     r = rnd.random()
@@ -1040,7 +1077,7 @@ def run_shard(spec, col):
         col.violation(None, 'denominator table differs from the metric prefixes', {'kind': 'tables'},
                       {s: str(v) for s, v in lib_dens.items()}, {s: '1e%d' % e for s, e in DEN_EXP.items()})
     for p in ('parse', 'from_satoshi', 'format', 'roundtrip', 'numeric_constructor', 'output_value', 'output_refusals', 'totals',
-              'display_denominator', 'display_text', 'order_step', 'order_unlisted_spelling'):
+              'display_denominator', 'display_text', 'order_step', 'order_unlisted_spelling', 'default_decimals_roundtrip'):
         col.require(p)
     rnd = random.Random('%s-%d-%d' % (ID, spec['seed'], spec['shard']))
     tally = Tally(col)
@@ -1070,6 +1107,11 @@ def run_shard(spec, col):
                 run_case({'kind': 'parse', 'num': render(n, DEN_EXP[s], 'full'), 'sym': s, 'code': c, 'network': net, 'style': 'grid'}, col, tally)
                 run_case({'kind': 'format', 'n': n, 'den': s, 'decimals': max(0, DEN_EXP[s] - UNIT_EXP), 'network': net, 'build': 'default'}, col, tally)
                 run_case({'kind': 'from_sat', 'n': n, 'den': s, 'network': net}, col, tally)
+    # default decimals: every denominator x every way of naming it x amounts with all digit positions non-zero
+    trio = [(s_, f_) for s_ in SYMS for f_ in ('sym', 'num', 'own')]
+    for j in range(sh, len(trio), ns):
+        for _ in range(12):
+            run_case(gen_format_default(rnd, None, trio[j][0], trio[j][1]), col, tally)
     # random mixture
     for i in range(spec['n_random']):
         r = rnd.random()
@@ -1079,8 +1121,10 @@ def run_shard(spec, col):
             case = gen_subunit(rnd)
         elif r < 0.65:
             case = gen_from_sat(rnd)
-        elif r < 0.90:
+        elif r < 0.82:
             case = gen_format(rnd)
+        elif r < 0.90:
+            case = gen_format_default(rnd, None if rnd.random() < 0.7 else gen_amount(rnd))
         else:
             case = gen_numeric(rnd)
         if case is not None:
